@@ -120,10 +120,11 @@ const (
 	opDecodeReqRaw = "decode-request" // DecodeRequest (random-access twin of ReadRequest)
 	opStreamSkip   = "stream-skip"    // stream reader over a segmented reader, Skip()ing a drawn subset of the fields
 	opDecodeEval   = "decode-eval"    // binary.Default.Decode + wire.EvaluateValue (iterates and closes everything)
+	opServe        = "serve"          // ReadRequest / DecodeRequest, then the responder's EncodeResponse / WriteResponse (serve_test.go)
 )
 
 var allOpKinds = []string{opEncode, opDecode, opStreamWrite, opStreamRead, opEncEnv, opDecEnv, opReadRequest,
-	opGenToWire, opGenEncode, opGenFromWire, opGenDecode, opDecodeReqRaw, opStreamSkip, opDecodeEval}
+	opGenToWire, opGenEncode, opGenFromWire, opGenDecode, opDecodeReqRaw, opStreamSkip, opDecodeEval, opServe}
 
 // bigDecodeKinds are the kinds a big binary is decoded through (every one of
 // them ends in the stream reader); badKinds are the kinds that may be given an
@@ -154,6 +155,8 @@ type Op struct {
 	Big *Big `json:"big,omitempty"`
 	// Bad: the input is spoiled so that Decode accepts it and forcing fails (decoding kinds only)
 	Bad *Poison `json:"bad,omitempty"`
+	// serve: how the request is read and answered
+	Serve *Serve `json:"serve,omitempty"`
 }
 
 // big reports whether the operation carries a binary longer than 1 MiB.
@@ -315,7 +318,7 @@ func prepare(op Op) (*prepared, error) {
 		p.wantW = skipModel(p.val, op.Skip)
 	case opEncEnv:
 		p.want = refcodec.EncodeStrict(refcodec.Envelope{Name: op.Name, Type: op.EType, SeqID: op.SeqID, Body: p.val})
-	case opDecEnv, opReadRequest, opDecodeReqRaw:
+	case opDecEnv, opReadRequest, opDecodeReqRaw, opServe:
 		e := refcodec.Envelope{Name: op.Name, Type: op.EType, SeqID: op.SeqID, Body: p.val}
 		name, seq := string(op.Name), op.SeqID
 		switch op.Framing {
@@ -329,6 +332,14 @@ func prepare(op Op) (*prepared, error) {
 		}
 		p.wantW = p.val
 		p.wantH = hdr(op.Framing, name, op.EType, seq)
+		if op.Kind == opServe {
+			if op.Serve == nil || op.Serve.Resp == nil || op.Serve.Resp.K != wm.KStruct {
+				return nil, ev.Errf("harness/op-kind", "a serve operation needs a response struct")
+			}
+			if op.Serve.Respond != respondWriteFail {
+				p.want = serveWant(op.Framing, op.Name, op.SeqID, op.Serve)
+			}
+		}
 		if err := p.spoil(); err != nil {
 			return nil, err
 		}
@@ -428,6 +439,8 @@ func (p *prepared) exec(y *yielder) (res result, err error) {
 			res.hdr = hdr(f, n, op.EType, s)
 			res.w = body.w
 		}
+	case opServe:
+		res.hdr, res.w, res.bytes, err = serveOnce(p.input, op.Plan, op.EType, op.Serve, y, len(p.want))
 	case opGenToWire:
 		var v wire.Value
 		v, err = p.orig.ToWire()
@@ -486,6 +499,9 @@ func (p *prepared) agrees(r result) string {
 	if p.op.Kind == opDecodeEval {
 		return "" // success is all EvaluateValue reports
 	}
+	if p.op.Kind == opServe && !bytes.Equal(r.bytes, p.want) {
+		return fmt.Sprintf("the response differs from the spec encoding at offset %d (got %d bytes, want %d): got %x… want %x…", firstDiff(r.bytes, p.want), len(r.bytes), len(p.want), clip(r.bytes, 32), clip(p.want, 32))
+	}
 	if producesBytes(p.op.Kind) {
 		if p.want != nil {
 			if !bytes.Equal(r.bytes, p.want) {
@@ -533,6 +549,9 @@ func (p *prepared) sameAsBaseline(r result) string {
 		}
 		// generated encoders iterate Go maps: byte order is free, content is not
 		return p.agrees(r)
+	}
+	if p.op.Kind == opServe && !bytes.Equal(r.bytes, b.bytes) {
+		return fmt.Sprintf("the response differs from the sequential baseline at offset %d (got %d bytes, baseline %d): got %x… baseline %x…", firstDiff(r.bytes, b.bytes), len(r.bytes), len(b.bytes), clip(r.bytes, 32), clip(b.bytes, 32))
 	}
 	if r.hdr != b.hdr {
 		return fmt.Sprintf("header %s, sequential baseline %s", r.hdr, b.hdr)
@@ -591,6 +610,8 @@ func (op Op) render() string {
 	switch {
 	case op.Gen != nil:
 		s = fmt.Sprintf("%s(%s salt=%d strs=%q nums=%v%s)", op.Kind, op.Gen.Kind, op.Gen.Salt, op.Gen.Strs, op.Gen.Nums, op.Gen.Big)
+	case op.Serve != nil:
+		s = fmt.Sprintf("%s(%s %s name=%q type=%d seq=%d body=%s rtype=%d response=%s)", op.Kind, op.Framing, op.Serve, op.Name, op.EType, op.SeqID, clipStr(wm.Render(*op.W), 60), op.Serve.RType, wm.Render(*op.Serve.Resp))
 	case op.Framing != "" || op.Kind == opEncEnv:
 		s = fmt.Sprintf("%s(%s name=%q type=%d seq=%d body=%s)", op.Kind, op.Framing, op.Name, op.EType, op.SeqID, wm.Render(*op.W))
 	default:
@@ -775,7 +796,7 @@ func genOp(t *rapid.T, i int, kinds []string, bad bool, big *Big) Op {
 	case opStreamSkip:
 		op.W = genValueW(t, wm.KStruct, label)
 		op.Skip = rapid.Uint64().Draw(t, label+"_skip")
-	case opEncEnv, opDecEnv, opReadRequest, opDecodeReqRaw:
+	case opEncEnv, opDecEnv, opReadRequest, opDecodeReqRaw, opServe:
 		if op.W == nil {
 			op.W = genValueW(t, wm.KStruct, label)
 		}
@@ -798,6 +819,9 @@ func genOp(t *rapid.T, i int, kinds []string, bad bool, big *Big) Op {
 			// business, not C18's: method names here are never empty.
 			op.Name = []byte("m")
 		}
+		if op.Kind == opServe {
+			op.Serve = genServe(t, label+"_serve")
+		}
 	default:
 		op.Gen = genRecipe(t, label, i)
 		if bad {
@@ -814,7 +838,7 @@ func genOp(t *rapid.T, i int, kinds []string, bad bool, big *Big) Op {
 		op.Big = big
 	}
 	switch op.Kind {
-	case opStreamRead, opReadRequest, opGenDecode, opStreamSkip:
+	case opStreamRead, opReadRequest, opGenDecode, opStreamSkip, opServe:
 		op.Plan = chunkio.GenPlan(t, label+"_plan")
 		if big != nil {
 			op.Plan = bigPlan(t, op.Plan, label)
@@ -983,6 +1007,9 @@ func runCodec(t ev.TB, c CodecCase) {
 		if op.big() {
 			nBig++
 			cls = append(cls, "big:"+op.Kind)
+		}
+		if op.Serve != nil {
+			cls = append(cls, "serve:"+op.Framing+"/"+op.Serve.String())
 		}
 	}
 	cls = append(cls, fmt.Sprintf("bad-inputs:%s", countBucket(nBad)), fmt.Sprintf("big-binaries:%d", nBig))
